@@ -106,8 +106,9 @@ func ParseBackX(path, src string) (out map[string]string, syntaxErr bool, err er
 			o = f.Options
 		}
 		label := strings.ToLower(strings.TrimPrefix(f.GetLabel().String(), "LABEL_"))
-		out[kind+":"+prefix+"/"+f.GetName()] = fmt.Sprintf("num=%d label=%s type=%s extendee=%s dflt=%s json=%s opts=%s",
-			f.GetNumber(), label, typ, f.GetExtendee(), plainOpt(f.Options, "default"), plainOpt(f.Options, "json_name"), optNames(o))
+		out[kind+":"+prefix+"/"+f.GetName()] = fmt.Sprintf("num=%d label=%s type=%s extendee=%s dflt=%s json=%s dep=%s opts=%s",
+			f.GetNumber(), label, typ, f.GetExtendee(), plainOpt(f.Options, "default"), plainOpt(f.Options, "json_name"),
+			plainOpt(f.Options, "deprecated"), optNames(o))
 	}
 	var enum func(prefix string, e *descriptorpb.EnumDescriptorProto)
 	enum = func(prefix string, e *descriptorpb.EnumDescriptorProto) {
@@ -116,7 +117,13 @@ func ParseBackX(path, src string) (out map[string]string, syntaxErr bool, err er
 			o = e.Options
 		}
 		p := prefix + "/" + e.GetName()
-		out["enum:"+p] = "opts=" + optNames(o)
+		alias := false
+		for _, u := range e.GetOptions().GetUninterpretedOption() {
+			if len(u.Name) == 1 && u.Name[0].GetNamePart() == "allow_alias" && u.GetIdentifierValue() == "true" {
+				alias = true
+			}
+		}
+		out["enum:"+p] = fmt.Sprintf("alias=%v opts=%s", alias, optNames(o))
 		for _, v := range e.Value {
 			var vo proto.Message
 			if v.Options != nil {
